@@ -108,6 +108,7 @@ func init() {
 				fr.nilCheck(in, st, pv)
 			}
 			if pv.Kind == KElem && isByte(pv.ArrElem) {
+				fr.extentCheck(in, st, pv, w/8, "call")
 				p.envStep(st, pv.Arr)
 				return Scalar{p.readLE(st, pv.Arr, pv.Idx, w/8)}
 			}
@@ -137,6 +138,7 @@ func init() {
 				fr.nilCheck(in, st, pv)
 			}
 			if pv.Kind == KElem && isByte(pv.ArrElem) {
+				fr.extentCheck(in, st, pv, w/8, "call")
 				p.envStep(st, pv.Arr)
 				p.writeLE(st, pv.Arr, pv.Idx, w/8, sTerm(args[1]))
 			} else if _, ok := st.Ghost["private"]; ok && pv.Ref != nil {
@@ -162,6 +164,7 @@ func init() {
 			}
 			ok := B.Fresh("cas.ok", SBool)
 			if pv.Kind == KElem && isByte(pv.ArrElem) {
+				fr.extentCheck(in, st, pv, w/8, "call")
 				p.envStep(st, pv.Arr)
 				// on success the word held old and now holds new; on failure unchanged by us
 				cur := p.readLE(st, pv.Arr, pv.Idx, w/8)
